@@ -312,6 +312,29 @@ def run(ctx: Ctx) -> None:
                 break
     ctx.extra['query_order_permutations'] = perms
 
+    # ---- queries that fail answer the same way every time they are asked ------------------------------
+    for name in list(shapes.TREES_ONLY) + ['shape_literals', 'shape_flow']:
+        s3 = tsession.Session(srcs)
+        n3 = s3.entrypoint(name)._Node__nodes
+        paths = list(ASTFinder().full_pathfy(lark_roots[name][2]).keys())
+        deep = max(paths, key=lambda q: q.count('.'))
+        asks = [('parent', ('file_input',)), ('ancestor', (deep, 'no_such_tag')), ('children', ('file_input.no_such_entry',)), ('by', ('file_input.no_such_entry',)),
+                ('siblings', ('file_input',)), ('ancestor', (deep, 'file_input'))] + [('children', (p_,)) for p_ in paths if p_.endswith('.assign') or p_.endswith('.assign[0]')][:3]
+        for what, args in asks:
+            answers = []
+            for _ in range(3):
+                try:
+                    r_ = getattr(n3, what)(*args)
+                    answers.append('None' if r_ is None else (type(r_).__name__ if not isinstance(r_, list) else 'list:%d' % len(r_)))
+                except Exception as e:
+                    answers.append('ERR:' + type(e).__name__)
+            ctx.evaluations += 1
+            ctx.count('repeated-failing-query')
+            if len(set(answers)) != 1:
+                ctx.violation('resolve-order', 'the same query asked three times on one tree gives different answers',
+                              dict(input=dict(kind='lark:' + name, source=srcs.get(name), query=[what, list(args)]), oracle_result=answers[0], impl_result=answers))
+                break
+
 
 def replay(ctx: Ctx, data: dict) -> int:
     print(json.dumps(data.get('input'), indent=1)[:3000])
